@@ -1,3 +1,4 @@
+mod c01;
 mod c02;
 mod codec;
 mod util;
@@ -17,6 +18,11 @@ fn main() {
     install_quiet_panic_hook();
     let mut rng = Rng::new(seed ^ fnv(prop.as_bytes()));
     let mut rep = match prop {
+        "C01" => {
+            let mut rep = Report::new("C01", "cases = (format variant, data kind, size class, partition style, option class); one PRNG; non-trivial = non-empty input; distinct = distinct signature");
+            c01::run(&mut rep, &mut rng, thorough);
+            rep
+        }
         "C02" => {
             let mut rep = Report::new("C02", "cases = (format, data kind, size class, partition style, option class); generated from one PRNG; non-trivial = non-empty input; distinct = distinct signature");
             c02::run(&mut rep, &mut rng, thorough);
